@@ -2,7 +2,7 @@ HOOKS = {
     "guard": "cargo feature `verif-hooks` on crate vaporetto",
     "enable": "the harness crates depend on /repo/vaporetto with features [\"kytea\", \"train\", \"verif-hooks\"]",
     "baseline_off_cmd": "cd /repo && cargo test --workspace --no-fail-fast --offline",
-    "source_commits": [],
+    "source_commits": ["cf6fd43", "9557e87", "9e3509a", "16fb2df"],
     "add_only": True,
 }
 NOTES = ("Every check rebuilds the Rust harness against /repo's working tree, regenerates lean/VModel/Generated/* by exhaustive "
@@ -291,5 +291,24 @@ META = {
         "note": _common_note + "PARTIAL: clap, process exit codes, tty flushing and the floats of evaluate are not modelled; C20_no_crash covers "
                 "character-type --wsconst values (the G filter needs cluster data; it is covered by the runs).",
         "technique": "Lean 4 proof (refinement of the reused-object loop to a per-line specification) + differential runs of the real binaries",
+    },
+    "C17": {
+        "text": "Lean theorems on a byte-level model of the KyTea reader, the trie walk and the converter, with an encoder for abstract "
+                "descriptions: reading an encoded file gives back the description and the rest (C17_read_encode); the trie walk "
+                "(explicit stack, mirrored) returns exactly the items the state table encodes, for ARBITRARY tables on which it "
+                "returns (C17_dump, worklist invariant) and within n_states steps on tries (C17_fuel_enough, C17_trie_items); the "
+                "conversion of a well-formed file equals the expected model — n-grams with vectors cut to 2w-l+1, type letters mapped "
+                "to codes, the 0x04 n-grams skipped, bias, windows, dictionary weights summed over the member dictionaries by length "
+                "bucket (C17_convert at byte level, C17_convert_any for any parsed file incl. real ones, explicit membership "
+                "statements C17_header/C17_char_ngrams/C17_type_ngrams/C17_dict_words), hence the same predictor as the expected "
+                "model and, with C01, the same segmentation (C17_same_predictor); every proper prefix of a well-formed file is "
+                "rejected with an error, never a panic (C17_truncated, C17_truncated_convert). Tied to /repo by encoding abstract "
+                "descriptions with an independent Rust encoder and the Lean encoder (bytes compared), running the REAL reader and "
+                "TryFrom on whole files and truncation points, comparing the converted Model::to_vec with the model's and with the "
+                "harness's own expectation; resources/kytea-model.bin included.",
+        "design_ref": "DESIGN.md §6 C17",
+        "note": _common_note + "WFKytea additionally requires non-empty n-gram dictionaries and a file shorter than 2^32 bytes. Files outside WFKytea (empty "
+                "n-gram dictionary, n-gram of length 2w+1, n_dicts > 8, corrupt counts) are outside the claim; see DESIGN.md 7.3.",
+        "technique": "Lean 4 proof (worklist invariant for the trie walk; pointwise strict decoders for the record grammar; conversion algebra) + differential correspondence on encoded files",
     },
 }
